@@ -244,3 +244,46 @@ Fixpoint run (b : bstate V) (ops : list op) : bstate V * list out :=
   end.
 
 End Run.
+
+Arguments OInsert {V}.
+Arguments ORemove {V}.
+Arguments OGet {V}.
+Arguments OContains {V}.
+Arguments OGetOrDefault {V}.
+Arguments OLen {V}.
+Arguments OIsEmpty {V}.
+Arguments OGetMutWrite {V}.
+Arguments OClear {V}.
+Arguments OIter {V}.
+Arguments OFirstLast {V}.
+Arguments OSlices {V}.
+Arguments ORange {V}.
+Arguments OItemsRange {V}.
+Arguments OFromPos {V}.
+Arguments OValidate {V}.
+Arguments OIntrospect {V}.
+Arguments OTryGet {V}.
+Arguments OGetItem {V}.
+Arguments OGetMany {V}.
+Arguments ORemoveItem {V}.
+Arguments OTryInsert {V}.
+Arguments OTryRemove {V}.
+Arguments OBatchInsert {V}.
+Arguments UOpt {V}.
+Arguments UBool {V}.
+Arguments UNat {V}.
+Arguments UVal {V}.
+Arguments UUnit {V}.
+Arguments UItems {V}.
+Arguments UList {V}.
+Arguments UFirstLast {V}.
+Arguments USlices {V}.
+Arguments UValidate {V}.
+Arguments UIntro {V}.
+Arguments URes {V}.
+Arguments UResOpt {V}.
+Arguments UResList {V}.
+Arguments UResOptList {V}.
+Arguments UPanic {V}.
+Arguments UFuel {V}.
+Arguments UUB {V}.
